@@ -406,9 +406,9 @@ Section Calls.
       destruct (rs (call_value unit u g x)) as [y|c ee]; cbn [bindr res_good] in *; [|exact H2].
       now apply IH.
     - assert (Hargs : vsg (pre ++ [x] ++ post) = true).
-      { rewrite !vsgood_app. unfold vsgood at 2. cbn [forallb]. now rewrite Hpre, Hx, Hpost. }
+      { unfold vsgood. rewrite !forallb_app. cbn [forallb]. now rewrite Hpre, Hx, Hpost. }
       destruct (rs (call_fun unit u f (pre ++ [x] ++ post))) as [v|c ee] eqn:E; cbn [res_good].
-      + apply (call_fun_ok bad u Hu_ok _ _ _ Hargs E).
+      + apply (call_fun_ok _ _ _ Hargs E).
       + apply (call_fun_err _ _ _ _ Hargs E).
   Qed.
 
@@ -418,9 +418,474 @@ Section Calls.
     intros Hf Ha. destruct f; try exact Hbad_type. cbn [call_value_n].
     destruct (N.eqb f B_COMPOSE); [exact Hbad_type|].
     cbn [vgood] in Hf. apply andb_prop in Hf as [Hpre Hpost].
-    assert (Hargs : vsg (pre ++ args ++ post) = true) by (rewrite !vsgood_app; now rewrite Hpre, Ha, Hpost).
+    assert (Hargs : vsg (pre ++ args ++ post) = true) by (unfold vsgood in *; rewrite !forallb_app; now rewrite Hpre, Ha, Hpost).
     destruct (rs (call_fun unit u f (pre ++ args ++ post))) as [v|c ee] eqn:E; cbn [res_good].
-    - apply (call_fun_ok bad u Hu_ok _ _ _ Hargs E).
+    - apply (call_fun_ok _ _ _ Hargs E).
     - apply (call_fun_err _ _ _ _ Hargs E).
   Qed.
 End Calls.
+
+(** ** Part 4: the fragments.  One boolean predicate on expressions, parameterised by which of
+    the constructs that carry a recorded finding (or need reasoning about templates) are let in;
+    every theorem names its parameter.  Never in: [EMap]. *)
+Record fopts := {
+  f_coalesce : bool;     (* ECoalesce *)
+  f_lazy : bool;         (* a bare EIter (a generator); otherwise only directly under list()/tuple() *)
+  f_template : bool;     (* ETemplate *)
+  f_effects : bool;      (* EComp with a non-empty list of effects *)
+  f_dom : bool;          (* an Option without default declaring a domain *)
+  f_domdflt : bool;      (* an Option with a default declaring a domain *)
+  f_presets : bool;      (* EWith with a non-empty pre-set dictionary *)
+  f_partialbind : bool;  (* EBind whose function is partial (no otherwise branch) *)
+  f_alloptions : bool    (* EAllOptions *)
+}.
+
+Definition vclean : value -> bool := vgood (fun _ => true).
+
+Definition is_forcer (fn : expr) : bool :=
+  match fn with
+  | EValue (VF b [] []) => N.eqb b B_LIST || N.eqb b B_TUPLE
+  | _ => false
+  end.
+
+Fixpoint fragP (p : fopts) (e : expr) : bool :=
+  match e with
+  | EValue v => vclean v
+  | EOption k dflt dom =>
+      match dflt with
+      | None => match dom with None => true | Some _ => f_dom p end
+      | Some d => fragP p d && match dom with None => true | Some _ => f_domdflt p end
+      end
+  | EApply src fn =>
+      match src with
+      | EIter es =>
+          if f_lazy p then forallb (fragP p) es && fragP p fn
+          else is_forcer fn && forallb (fragP p) es
+      | _ => fragP p src && fragP p fn
+      end
+  | EBind src tbl dflt =>
+      fragP p src && forallb (fun ve => fragP p (snd ve)) tbl &&
+      match dflt with Some d => fragP p d | None => f_partialbind p end
+  | ESwitch disp tbl dflt =>
+      fragP p disp && forallb (fun ve => fragP p (snd ve)) tbl &&
+      match dflt with Some d => fragP p d | None => true end
+  | ECase disp cases dflt =>
+      fragP p disp && forallb (fun cr => fragP p (fst cr) && fragP p (snd cr)) cases &&
+      match dflt with Some d => fragP p d | None => true end
+  | ECoalesce ms => f_coalesce p && forallb (fragP p) ms
+  | EIter es => f_lazy p && forallb (fragP p) es
+  | EMap _ _ => false
+  | EWith _ pr e => match pr with [] => true | _ => f_presets p end && fragP p e
+  | ECached _ e => fragP p e
+  | ECall _ f args kwargs => fragP p f && forallb (fragP p) args && forallb (fragP p) kwargs
+  | ETemplate _ ps => f_template p && forallb (fun pe => fragP p (snd pe)) ps
+  | EComp e effs => fragP p e && match effs with [] => true | _ => f_effects p end && forallb (fragP p) effs
+  | ELogged e => fragP p e
+  | EPipe steps => forallb (fragP p) steps
+  | EAllOptions => f_alloptions p
+  end.
+
+Lemma Forall_frag {A} (g : A -> expr) (F : expr -> bool) (Q : expr -> Prop) l :
+  forallb (fun a => F (g a)) l = true -> Forall (fun a => F (g a) = true -> Q (g a)) l ->
+  Forall (fun a => Q (g a)) l.
+Proof.
+  induction l as [|a l IH]; intros Hb Hf; [constructor|].
+  cbn [forallb] in Hb. apply andb_prop in Hb as [Ha Hl]. inversion Hf; subst.
+  constructor; [now apply H1|now apply IH].
+Qed.
+
+Section FragInd.
+  Variable p : fopts.
+  Variable Q : expr -> Prop.
+  Hypothesis HValue : forall v, vclean v = true -> Q (EValue v).
+  Hypothesis HOption : forall k dflt dom,
+    Popt Q dflt ->
+    match dflt, dom with
+    | None, Some _ => f_dom p = true
+    | Some _, Some _ => f_domdflt p = true
+    | _, None => True
+    end -> Q (EOption k dflt dom).
+  Hypothesis HApply : forall src fn, Q src -> Q fn -> Q (EApply src fn).
+  Hypothesis HForced : forall es b,
+    f_lazy p = false -> b = B_LIST \/ b = B_TUPLE -> Forall Q es -> Q (EApply (EIter es) (EValue (VF b [] []))).
+  Hypothesis HBind : forall src tbl dflt,
+    Q src -> Forall (fun ve => Q (snd ve)) tbl -> Popt Q dflt -> (dflt = None -> f_partialbind p = true) ->
+    Q (EBind src tbl dflt).
+  Hypothesis HSwitch : forall disp tbl dflt,
+    Q disp -> Forall (fun ve => Q (snd ve)) tbl -> Popt Q dflt -> Q (ESwitch disp tbl dflt).
+  Hypothesis HCase : forall disp cases dflt,
+    Q disp -> Forall (fun cr => Q (fst cr) /\ Q (snd cr)) cases -> Popt Q dflt -> Q (ECase disp cases dflt).
+  Hypothesis HCoalesce : forall ms, f_coalesce p = true -> Forall Q ms -> Q (ECoalesce ms).
+  Hypothesis HIter : forall es, f_lazy p = true -> Forall Q es -> Q (EIter es).
+  Hypothesis HWith : forall force pr e, pr = [] \/ f_presets p = true -> Q e -> Q (EWith force pr e).
+  Hypothesis HCached : forall c e, Q e -> Q (ECached c e).
+  Hypothesis HCall : forall partial f args kwargs,
+    Q f -> Forall Q args -> Forall Q kwargs -> Q (ECall partial f args kwargs).
+  Hypothesis HTemplate : forall s ps,
+    f_template p = true -> Forall (fun pe => Q (snd pe)) ps -> Q (ETemplate s ps).
+  Hypothesis HComp : forall e effs,
+    effs = [] \/ f_effects p = true -> Q e -> Forall Q effs -> Q (EComp e effs).
+  Hypothesis HLogged : forall e, Q e -> Q (ELogged e).
+  Hypothesis HPipe : forall steps, Forall Q steps -> Q (EPipe steps).
+  Hypothesis HAll : f_alloptions p = true -> Q EAllOptions.
+
+  Let P (e : expr) : Prop :=
+    (fragP p e = true -> Q e) /\
+    match e with EIter es => Forall (fun x => fragP p x = true -> Q x) es | _ => True end.
+
+  Lemma P_all l : Forall P l -> forallb (fragP p) l = true -> Forall Q l.
+  Proof.
+    intros HP Hb. apply (Forall_frag (fun x => x) (fragP p) Q l Hb).
+    eapply Forall_impl; [|exact HP]. intros a [Ha _]. exact Ha.
+  Qed.
+  Lemma P_snd {A} (l : list (A * expr)) :
+    Forall (fun ve => P (snd ve)) l -> forallb (fun ve => fragP p (snd ve)) l = true ->
+    Forall (fun ve => Q (snd ve)) l.
+  Proof.
+    intros HP Hb. apply (Forall_frag (fun ve : A * expr => snd ve) (fragP p) Q l Hb).
+    eapply Forall_impl; [|exact HP]. intros a [Ha _]. exact Ha.
+  Qed.
+  Lemma P_opt d : Popt P d -> match d with Some x => fragP p x | None => true end = true -> Popt Q d.
+  Proof. destruct d as [x|]; cbn; [|trivial]. intros [Hx _] Hb. now apply Hx. Qed.
+
+  Theorem fragP_ind : forall e, fragP p e = true -> Q e.
+  Proof.
+    assert (HP : forall e, P e); [|intros e; apply (HP e)].
+    induction e using expr_ind'; (split; [|exact I || idtac]); try (intros Hf; cbn [fragP] in Hf).
+    - now apply HValue.
+    - destruct dflt as [d|].
+      + apply andb_prop in Hf as [Hd Hdom]. apply HOption; [apply (proj1 H Hd)|].
+        destruct dom; [exact Hdom|exact I].
+      + apply HOption; [exact I|]. destruct dom; [exact Hf|exact I].
+    - destruct IHe1 as [Hs Hes].
+      assert (Hgen : fragP p e1 && fragP p e2 = true -> Q (EApply e1 e2)).
+      { intros Hb. apply andb_prop in Hb as [H1 H2]. apply HApply; [now apply Hs|now apply (proj1 IHe2)]. }
+      destruct e1; try exact (Hgen Hf).
+      destruct (Bool.bool_dec (f_lazy p) true) as [L|L].
+      + apply Hgen. cbn [fragP]. rewrite L in *. exact Hf.
+      + apply not_true_is_false in L. rewrite L in Hf.
+        apply andb_prop in Hf as [Hfc Hes']. clear Hgen.
+        assert (HQ : Forall Q es) by (apply (Forall_frag (fun x => x) (fragP p) Q es Hes' Hes)).
+        destruct e2 as [v| | | | | | | | | | | | | | | | ]; try discriminate.
+        destruct v as [|?|b pre post| |]; try discriminate.
+        destruct pre; [|discriminate]. destruct post; [|discriminate].
+        cbn [is_forcer] in Hfc. apply HForced; [exact L| |exact HQ].
+        apply orb_prop in Hfc as [E|E]; apply N.eqb_eq in E; auto.
+    - apply andb_prop in Hf as [Hf Hd]. apply andb_prop in Hf as [Hs Ht].
+      apply HBind; [now apply (proj1 IHe)|now apply P_snd| |].
+      + destruct dflt as [d|]; [apply (proj1 H0 Hd)|exact I].
+      + intros ->. exact Hd.
+    - apply andb_prop in Hf as [Hf Hd]. apply andb_prop in Hf as [Hs Ht].
+      apply HSwitch; [now apply (proj1 IHe)|now apply P_snd|now apply P_opt].
+    - apply andb_prop in Hf as [Hf Hd]. apply andb_prop in Hf as [Hs Ht].
+      apply HCase; [now apply (proj1 IHe)| |now apply P_opt].
+      clear -H Ht. induction cases as [|[c r] cases IH]; [constructor|].
+      cbn [forallb fst snd] in Ht. apply andb_prop in Ht as [Hcr Ht]. apply andb_prop in Hcr as [Hc Hr].
+      inversion H; subst. destruct H2 as [[Pc _] [Pr _]]. constructor; [split; auto|now apply IH].
+    - apply andb_prop in Hf as [Hc Hm]. apply HCoalesce; [exact Hc|now apply P_all].
+    - apply andb_prop in Hf as [Hl Hm]. apply HIter; [exact Hl|now apply P_all].
+    - eapply Forall_impl; [|exact H]. intros a [Ha _]. exact Ha.
+    - discriminate.
+    - apply andb_prop in Hf as [Hp He]. apply HWith; [|now apply (proj1 IHe)].
+      destruct p0; [now left|now right].
+    - apply HCached. now apply (proj1 IHe).
+    - apply andb_prop in Hf as [Hf Hk]. apply andb_prop in Hf as [Hf Ha].
+      apply HCall; [now apply (proj1 IHe)|now apply P_all|now apply P_all].
+    - apply andb_prop in Hf as [Ht Hps]. apply HTemplate; [exact Ht|now apply P_snd].
+    - apply andb_prop in Hf as [Hf Hes]. apply andb_prop in Hf as [He Hfl].
+      apply HComp; [|now apply (proj1 IHe)|now apply P_all].
+      destruct effects; [now left|now right].
+    - apply HLogged. now apply (proj1 IHe).
+    - apply HPipe. now apply P_all.
+    - now apply HAll.
+  Qed.
+End FragInd.
+
+(** ** Part 5: the reference instance *)
+Lemma vclean_good bad v : vclean v = true -> vgood bad v = true.
+Proof.
+  unfold vclean. induction v using value_ind'; intros Hc; try reflexivity; cbn [vgood] in *.
+  - induction args as [|a args IH]; [reflexivity|]. cbn [forallb] in *.
+    apply andb_prop in Hc as [Ha Hr]. inversion H; subst. now rewrite (H2 Ha), IH.
+  - apply andb_prop in Hc as [Hp Hq].
+    assert (G : forall l, Forall (fun v => vgood (fun _ => true) v = true -> vgood bad v = true) l ->
+                forallb (vgood (fun _ => true)) l = true -> forallb (vgood bad) l = true).
+    { induction l as [|a l IH]; intros HF Hl; [reflexivity|]. cbn [forallb] in *.
+      apply andb_prop in Hl as [Ha Hl]. inversion HF; subst. now rewrite (H3 Ha), IH. }
+    now rewrite (G pre H Hp), (G post H0 Hq).
+  - discriminate.
+Qed.
+
+Lemma res_good_wrapr bad r : res_good bad (wrapr r) <-> res_good bad r.
+Proof. destruct r; reflexivity. Qed.
+
+Lemma rs_rd k o : rs (rd unit k o) = Ok (lookup k (JObj o)).
+Proof. unfold rd. rewrite rs_bind, rs_emit. reflexivity. Qed.
+Lemma rs_emit_reads l o : rs (emit_reads unit l o) = Ok tt.
+Proof.
+  unfold emit_reads. induction l as [|k l IH]; [reflexivity|].
+  rewrite rs_iterM_cons, rs_emit. exact IH.
+Qed.
+
+Lemma assoc_v_In {A} x (tbl : list (value * A)) b : assoc_v x tbl = Some b -> exists v, In (v, b) tbl.
+Proof.
+  unfold assoc_v. induction tbl as [|[v a] tbl IH]; [discriminate|].
+  destruct (value_eq x v).
+  - intros H. inversion H; subst. exists v. now left.
+  - intros H. destruct (IH H) as [v' Hv]. exists v'. now right.
+Qed.
+
+Lemma Forall_snd_In {A} (Q : expr -> Prop) (tbl : list (A * expr)) a b :
+  Forall (fun ve => Q (snd ve)) tbl -> In (a, b) tbl -> Q b.
+Proof. rewrite Forall_forall. intros H Hin. apply (H (a, b) Hin). Qed.
+
+Section Ref.
+  Variable u : N -> list value -> cres.
+  Variable rfuel : nat.
+  Notation ev := (eval unit nc_find nc_store cfg_nc u rfuel (fun _ _ => true)).
+  Notation va := (validate unit nc_find nc_store cfg_nc u rfuel (fun _ _ => true)).
+  Notation ks := (keys unit nc_find nc_store cfg_nc u rfuel (fun _ _ => true)).
+  Notation ex := (explain unit nc_find nc_store cfg_nc u rfuel (fun _ _ => true)).
+  Local Notation U l := (l unit nc_find nc_store cfg_nc u rfuel (fun _ _ => true)) (only parsing).
+  Notation "x <- m ;; f" := (bind unit m (fun x => f)) (at level 61, m at next level, right associativity).
+  Notation "m ;;; f" := (bind unit m (fun _ => f)) (at level 61, right associativity).
+
+  Lemma rs_ev_wrapped e o : wrapr (rs (ev e o)) = rs (ev e o).
+  Proof.
+    pose proof (eval_is_wrapped unit nc_find nc_store cfg_nc u rfuel (fun _ _ => true) e o tt) as W.
+    rewrite <- rs_wrap. unfold rs. now rewrite W.
+  Qed.
+  Lemma ev_err_ee e o c ee : rs (ev e o) = Err c ee -> ee = true.
+  Proof. intros H. pose proof (rs_ev_wrapped e o) as W. rewrite H in W. cbn in W. now inversion W. Qed.
+
+  (** caching is off on the reference instance: a cached node is its body *)
+  Lemma ev_cached c e o : ev (ECached c e) o = wrap_eval unit (ev e o).
+  Proof. destruct c; reflexivity. Qed.
+  Lemma va_cached c e o : va (ECached c e) o = va e o.
+  Proof. destruct c; reflexivity. Qed.
+  Lemma rs_ev_cached c e o : rs (ev (ECached c e) o) = rs (ev e o).
+  Proof. rewrite ev_cached, rs_wrap. apply rs_ev_wrapped. Qed.
+  Lemma rs_ev_with f p e o : rs (ev (EWith f p e) o) = rs (ev e (with_opts f p o)).
+  Proof. rewrite (U eval_EWith), rs_wrap. apply rs_ev_wrapped. Qed.
+  Lemma rs_ev_logged e o : rs (ev (ELogged e) o) = rs (ev e o).
+  Proof.
+    rewrite (U eval_ELogged), rs_wrap, rs_bind, rs_emit. cbn [bindr]. rewrite rs_bind.
+    destruct (_ || _); [rewrite rs_ret|rewrite rs_emit]; cbn [bindr]; apply rs_ev_wrapped.
+  Qed.
+
+  (** the loops inside the clauses, named *)
+  Definition case_go {A} (x : value) (o : dict) (onres : expr -> MU A) (dm : MU A) : list (expr * expr) -> MU A :=
+    fix go (cs : list (expr * expr)) : MU A :=
+      match cs with
+      | [] => dm
+      | (c, r) :: cs' => p <- ev c o ;; b <- call_value unit u p x ;; if truthy b then onres r else go cs'
+      end.
+  Definition coal_go {A} (o : dict) (act : expr -> MU A) : list expr -> option (cause * bool) -> MU A :=
+    fix go (ms : list expr) (last : option (cause * bool)) : MU A :=
+      match ms with
+      | [] => match last with Some (c, ee) => fail unit c ee | None => fail unit CUnmodelled false end
+      | m :: ms' => catch unit (va m o ;;; act m) (fun c ee => if ee then go ms' (Some (c, ee)) else fail unit c ee)
+      end.
+  Definition iter_go (o : dict) : list expr -> MU (list value) :=
+    fix go (es : list expr) : MU (list value) :=
+      match es with
+      | [] => ret unit []
+      | x :: es' => catch unit (v <- ev x o ;;
+                                if is_some (deep_err v) then ret unit [v]
+                                else vs <- go es' ;; ret unit (v :: vs))
+                               (fun c _ => ret unit [VErr c])
+      end.
+  Definition dflt_or {A} (dflt : option expr) (act : expr -> MU A) (c : cause) (ee : bool) : MU A :=
+    match dflt with Some d => act d | None => fail unit c ee end.
+
+  Lemma ev_case disp cases dflt o :
+    ev (ECase disp cases dflt) o =
+      wrap_eval unit (x <- ev disp o ;; case_go x o (fun r => ev r o) (dflt_or dflt (fun d => ev d o) CCase true) cases).
+  Proof. reflexivity. Qed.
+  Lemma va_case disp cases dflt o :
+    va (ECase disp cases dflt) o =
+      va disp o ;;; x <- ev disp o ;; case_go x o (fun r => va r o) (dflt_or dflt (fun d => va d o) CCase true) cases.
+  Proof. reflexivity. Qed.
+  Lemma ks_case disp cases dflt o :
+    ks (ECase disp cases dflt) o =
+      a <- ks disp o ;; x <- ev disp o ;;
+      b <- case_go x o (fun r => ks r o) (dflt_or dflt (fun d => ks d o) CCase true) cases ;; ret unit (a ++ b).
+  Proof. reflexivity. Qed.
+  Lemma ex_case disp cases dflt o :
+    ex (ECase disp cases dflt) o =
+      catch unit (a <- ex disp o ;; x <- ev disp o ;;
+                  b <- case_go x o (fun r => ex r o) (dflt_or dflt (fun d => ex d o) CCase true) cases ;; ret unit (a ++ b))
+                 (fun c ee => if ee then fail unit CInsuff true else fail unit c ee).
+  Proof. reflexivity. Qed.
+  Lemma ev_coalesce ms o : ev (ECoalesce ms) o = wrap_eval unit (coal_go o (fun m => ev m o) ms None).
+  Proof. reflexivity. Qed.
+  Lemma va_coalesce ms o : va (ECoalesce ms) o = coal_go o (fun m => va m o) ms None.
+  Proof. reflexivity. Qed.
+  Lemma ks_coalesce ms o : ks (ECoalesce ms) o = coal_go o (fun m => ks m o) ms None.
+  Proof. reflexivity. Qed.
+  Lemma ev_iter es o : ev (EIter es) o = wrap_eval unit (vs <- iter_go o es ;; ret unit (VT T_ITER vs)).
+  Proof. reflexivity. Qed.
+
+  (** which case a CaseWhen takes: the same computation in all four interpreters *)
+  Fixpoint case_sel (x : value) (o : dict) (cs : list (expr * expr)) : res (option expr) :=
+    match cs with
+    | [] => Ok None
+    | (c, r) :: cs' =>
+        bindr (rs (ev c o)) (fun p => bindr (rs (call_value unit u p x)) (fun b =>
+          if truthy b then Ok (Some r) else case_sel x o cs'))
+    end.
+  Lemma rs_case_go A x o (onres : expr -> MU A) dm cs :
+    rs (case_go x o onres dm cs) =
+      bindr (case_sel x o cs) (fun s => match s with Some r => rs (onres r) | None => rs dm end).
+  Proof.
+    induction cs as [|[c r] cs IH]; [reflexivity|].
+    cbn [case_go case_sel]. rewrite rs_bind. destruct (rs (ev c o)) as [p|]; cbn [bindr]; [|reflexivity].
+    rewrite rs_bind. destruct (rs (call_value unit u p x)) as [b|]; cbn [bindr]; [|reflexivity].
+    destruct (truthy b); [reflexivity|exact IH].
+  Qed.
+  Lemma case_sel_In x o cs r : case_sel x o cs = Ok (Some r) -> exists c, In (c, r) cs.
+  Proof.
+    induction cs as [|[c r'] cs IH]; [discriminate|]. cbn [case_sel].
+    destruct (rs (ev c o)) as [p|]; cbn [bindr]; [|discriminate].
+    destruct (rs (call_value unit u p x)) as [b|]; cbn [bindr]; [|discriminate].
+    destruct (truthy b).
+    - intros H. inversion H; subst. exists c. now left.
+    - intros H. destruct (IH H) as [c' Hc]. exists c'. now right.
+  Qed.
+  Lemma rs_dflt_or A dflt (act : expr -> MU A) c ee :
+    rs (dflt_or dflt act c ee) = match dflt with Some d => rs (act d) | None => Err c ee end.
+  Proof. destruct dflt; reflexivity. Qed.
+
+  Lemma rs_coal_nil A o (act : expr -> MU A) last :
+    rs (coal_go o act [] last) = match last with Some (c, ee) => Err c ee | None => Err CUnmodelled false end.
+  Proof. destruct last as [[c ee]|]; reflexivity. Qed.
+  Lemma rs_coal_cons A o (act : expr -> MU A) m ms last :
+    rs (coal_go o act (m :: ms) last) =
+      catchr (bindr (rs (va m o)) (fun _ => rs (act m)))
+             (fun c ee => if ee then rs (coal_go o act ms (Some (c, ee))) else Err c ee).
+  Proof.
+    cbn [coal_go]. rewrite rs_catch, rs_bind. destruct (bindr _ _) as [a|c ee]; cbn [catchr]; [reflexivity|].
+    destruct (unmodb c); [reflexivity|]. destruct ee; reflexivity.
+  Qed.
+  Lemma rs_iter_cons o x es :
+    rs (iter_go o (x :: es)) =
+      catchr (bindr (rs (ev x o)) (fun v => if is_some (deep_err v) then Ok [v]
+                                            else bindr (rs (iter_go o es)) (fun vs => Ok (v :: vs))))
+             (fun c _ => Ok [VErr c]).
+  Proof.
+    cbn [iter_go]. rewrite rs_catch, rs_bind.
+    destruct (rs (ev x o)) as [v|c ee]; cbn [bindr]; [|reflexivity].
+    destruct (is_some (deep_err v)); [reflexivity|]. rewrite rs_bind.
+    destruct (rs (iter_go o es)); reflexivity.
+  Qed.
+
+  Lemma iterM_ok_Forall A (f : A -> MU unit) l :
+    rs (iterM unit f l) = Ok tt <-> Forall (fun a => rs (f a) = Ok tt) l.
+  Proof.
+    induction l as [|a l IH]; [split; [constructor|reflexivity]|].
+    rewrite rs_iterM_cons. split.
+    - intros H. apply bindr_ok in H as [[] [Ha Hl]]. constructor; [exact Ha|now apply IH].
+    - intros H. inversion H; subst. rewrite H2. cbn [bindr]. now apply IH.
+  Qed.
+  Lemma iterM_err_Exists A (f : A -> MU unit) l c ee :
+    rs (iterM unit f l) = Err c ee -> Exists (fun a => rs (f a) = Err c ee) l.
+  Proof.
+    induction l as [|a l IH]; [discriminate|]. rewrite rs_iterM_cons. intros H.
+    apply bindr_err in H as [H|[[] [_ H]]]; [now left|right; now apply IH].
+  Qed.
+
+  (** [Option.evaluate], result level *)
+  Definition dom_check (dom : option expr) (o : dict) (v : value) : res value :=
+    match dom with
+    | None => Ok v
+    | Some de => bindr (rs (ev de o)) (fun d => bindr (rs (in_domain unit u d v)) (fun _ => Ok v))
+    end.
+  Lemma rs_dom_tail dom o v :
+    rs (match dom with
+        | None => ret unit v
+        | Some de => d <- ev de o ;; in_domain unit u d v ;;; ret unit v
+        end) = dom_check dom o v.
+  Proof.
+    destruct dom as [de|]; [|reflexivity]. cbn [dom_check]. rewrite rs_bind.
+    destruct (rs (ev de o)) as [d|]; cbn [bindr]; [|reflexivity]. rewrite rs_bind.
+    destruct (rs (in_domain unit u d v)); reflexivity.
+  Qed.
+  Lemma rs_option_eval k dflt dom o :
+    rs (option_eval unit u rfuel (fun x => ev x o) k dflt dom o) =
+      match lookup k (JObj o) with
+      | TypeErr => Err CType false
+      | Absent => match dflt with
+                  | None => Err (CKey k) true
+                  | Some d => bindr (rs (ev d o)) (dom_check dom o)
+                  end
+      | Found raw => bindr (rs (of_rres unit (resolve rfuel o raw))) (fun j => dom_check dom o (VJ j))
+      end.
+  Proof.
+    unfold option_eval. rewrite rs_bind, rs_rd. cbn [bindr]. rewrite rs_bind.
+    destruct (lookup k (JObj o)) as [raw| |]; [| |reflexivity].
+    - rewrite rs_bind, rs_emit_reads. cbn [bindr]. rewrite rs_bind.
+      destruct (rs (of_rres unit (resolve rfuel o raw))) as [j|]; cbn [bindr]; [|reflexivity].
+      apply rs_dom_tail.
+    - destruct dflt as [d|]; [|reflexivity].
+      destruct (rs (ev d o)) as [v|]; cbn [bindr]; [|reflexivity]. apply rs_dom_tail.
+  Qed.
+  Lemma rs_va_option k dflt dom o :
+    rs (va (EOption k dflt dom) o) =
+      match lookup k (JObj o) with
+      | TypeErr => Err CType false
+      | Found _ => bindr (rs (ev (EOption k dflt dom) o)) (fun _ => Ok tt)
+      | Absent => match dflt with Some d => rs (va d o) | None => Err (CKey k) true end
+      end.
+  Proof.
+    rewrite (U validate_EOption), rs_bind, rs_rd. cbn [bindr].
+    destruct (lookup k (JObj o)); [|destruct dflt; reflexivity|reflexivity].
+    rewrite rs_bind. rewrite (U eval_EOption). destruct (rs (wrap_eval unit _)); reflexivity.
+  Qed.
+  Lemma rs_ev_option k dflt dom o :
+    rs (ev (EOption k dflt dom) o) = wrapr (rs (option_eval unit u rfuel (fun x => ev x o) k dflt dom o)).
+  Proof. rewrite (U eval_EOption). apply rs_wrap. Qed.
+
+  Lemma dom_check_value dom o v w : dom_check dom o v = Ok w -> w = v.
+  Proof.
+    destruct dom as [de|]; cbn [dom_check]; [|intros H; now inversion H].
+    intros H. apply bindr_ok in H as [d [_ H]]. apply bindr_ok in H as [[] [_ H]]. now inversion H.
+  Qed.
+
+  Section Guard.
+    Variable bad : cause -> bool.
+    Hypothesis Hu_ok : forall f args v, vsgood bad args = true -> u f args = COk v -> vgood bad v = true.
+    Hypothesis Hbad_type : bad CType = false.
+    Hypothesis Hbad_unmod : bad CUnmodelled = false.
+    Hypothesis Hu_raise : forall f args n, u f args = CRaise n -> bad (CUser n) = false.
+    Notation rg := (res_good bad).
+
+    Definition guardQ (e : expr) : Prop := forall o, rs (va e o) = Ok tt -> rg (rs (ev e o)).
+
+    Lemma guard_value v : vclean v = true -> guardQ (EValue v).
+    Proof. intros Hc o _. rewrite (U eval_EValue), rs_wrap, rs_ret. now apply vclean_good. Qed.
+
+    Lemma guard_option k dflt dom :
+      Popt guardQ dflt ->
+      match dflt, dom with Some _, Some _ => False | _, _ => True end ->
+      guardQ (EOption k dflt dom).
+    Proof.
+      intros Hd Hc o. rewrite rs_va_option, rs_ev_option, rs_option_eval.
+      destruct (lookup k (JObj o)) as [raw| |]; [| |discriminate].
+      - intros H. apply bindr_ok in H as [v [H _]]. apply (proj1 (wrapr_ok _ _ _)) in H. rewrite H. cbn.
+        apply bindr_ok in H as [j [_ H]]. apply dom_check_value in H. now subst.
+      - destruct dflt as [d|]; [|discriminate]. destruct dom; [destruct Hc|].
+        intros H. specialize (Hd o H). apply res_good_wrapr.
+        destruct (rs (ev d o)); exact Hd.
+    Qed.
+
+    Lemma guard_apply src fn : guardQ src -> guardQ fn -> guardQ (EApply src fn).
+    Proof.
+      intros Hs Hf o. rewrite (U validate_EApply), rs_bind. intros H.
+      apply bindr_ok in H as [[] [H1 H2]]. specialize (Hs o H1). specialize (Hf o H2).
+      rewrite (U eval_EApply), rs_wrap. apply res_good_wrapr. rewrite rs_bind.
+      destruct (rs (ev src o)) as [x|]; cbn [bindr]; [|exact Hs]. rewrite rs_bind.
+      destruct (rs (ev fn o)) as [f|]; cbn [bindr]; [|exact Hf].
+      apply (call_value_good bad u Hu_ok Hbad_type Hu_raise f x Hf Hs).
+    Qed.
+  End Guard.
+End Ref.
